@@ -376,3 +376,22 @@ def _match_known(known, pid, task, o):
         (not k.get("task") or k["task"] in task):
       return k
   return None
+
+
+def standard_main(pid, tier, tasks, *, not_covered, structural, trusted_extra=(), oracle=True,
+                  extra=None, min_obligations=1, extra_bounded=None):
+  """Common check driver: run tasks, native oracle as replay (and as a bounded stand-in in the thorough tier)."""
+  t0 = time.time()
+  results = run_tasks(tasks, os.path.join(VERIF, "out", pid))
+  bounded = list(extra_bounded or [])
+  known = [k for k in load_known().get("known", []) if k["property"] == pid]
+  has_oracle = oracle and os.path.exists(os.path.join(VERIF, "native", pid.lower() + ".py"))
+  if has_oracle and (tier == "thorough" or known):
+    res = native_oracle(pid, tier)
+    bounded.append(bounded_from_oracle(
+        f"native oracle of {pid} on the real code (bounded stand-in / known-finding confirmation; not counted as proved)",
+        res, known))
+  return finish_check(pid, tier, results, t0, checker_cmd=f"./verify {pid} --tier {tier}",
+                      not_covered=not_covered, structural=structural, trusted_extra=trusted_extra,
+                      replay=(lambda: native_oracle(pid, "quick")) if has_oracle else None,
+                      bounded=bounded, extra=extra, min_obligations=min_obligations)
